@@ -28,10 +28,10 @@ func (n *ReconcileNode) VerifResetCache() { n.cache = sync.Map{} }
 
 // VerifOption is one slot of the plan computed by getEniOptions + assignEniWithOptions.
 type VerifOption struct {
-	Trunk, RDMA  bool
-	ENI          string // "" for an interface to be created
-	Add4, Add6   int
-	Full         bool
+	Trunk, RDMA bool
+	ENI         string // "" for an interface to be created
+	Add4, Add6  int
+	Full        bool
 }
 
 // VerifPlan runs the planning arithmetic: slots from the flavor, then the demand split (normal, then rdma).
@@ -61,9 +61,9 @@ func VerifReleaseUnused(eni *networkv1beta1.NetworkInterface, toDel int) int {
 
 // VerifPod is a pod as the binding passes see it.
 type VerifPod struct {
-	ID, UID              string
-	Need4, Need6, RDMA   bool
-	IPv4, IPv6           string
+	ID, UID            string
+	Need4, Need6, RDMA bool
+	IPv4, IPv6         string
 }
 
 // VerifBind runs one binding pass over the record: index, release of vanished pods (gated on the
